@@ -213,6 +213,12 @@ Proof.
   - left. inversion H; subst. auto.
 Qed.
 
+Example fused_selection_nonvacuous :
+  fused_candidate (EInt 3) (EIdent [120%N]) OpLt = Some ([120%N], 3, OpGt)
+  /\ fused_candidate (EIdent [120%N]) (EInt 3) OpSubtract = Some ([120%N], 3, OpSubtract)
+  /\ fused_candidate (EInt 3) (EIdent [120%N]) OpSubtract = None.
+Proof. vm_compute. repeat split; reflexivity. Qed.
+
 (* and conversely: exactly the shapes  x op c  and  c op x (mirrorable op)  are candidates *)
 Theorem fused_selection_complete : forall name v op,
   fused_candidate (EIdent name) (EInt v) op = Some (name, v, op)
